@@ -5,6 +5,18 @@ HERE = os.path.dirname(os.path.abspath(__file__))
 ROOT = os.path.dirname(HERE)
 
 CHECKS = {
+    "C05": dict(
+        text="Lean theorems: the model of every UnitValue / UnitArray operator method (forward and reflected, _neg/_inv, **, "
+             "comparisons, Python's dispatch) is a homomorphism onto exact arithmetic on SI values and dimension vectors for all "
+             "expression trees, all valid unit systems and all integer dimension vectors; dimensionally meaningless operations are "
+             "errors (the SI value of scalar ** is a hypothesis of the tree theorem, its dimension rule is proved); operator "
+             "wiring regenerated from units.py. Tie: translator group UnitsOps + correspondence on random "
+             "expression trees and an exhaustive operator x pairing table + per-node SI oracle on the real code.",
+        note="Lean kernel + {propext, Classical.choice, Quot.sound}; translator; correspondence harness; float rounding within "
+             "1e-9 of the magnitude of the added terms (checked on every case, not proved); real power of a positive number is a "
+             "parameter with a stated contract.",
+        technique="Lean 4 proof (structural induction over expression trees) + differential correspondence",
+        design="§6 C05"),
     "C06": dict(
         text="Lean theorems: generated unit tables (regenerated from units.py on every run) have their SI meaning "
              "(whole-table kernel evaluation); conversion factor = ratio of SI values; identity, composition, inverse, "
@@ -26,6 +38,24 @@ CHECKS = {
              "file system trusted; quantity float token and equation text are tokens carrying their value (C18/C19).",
         technique="Lean 4 proof over translator-generated key tables + generic field-schema interpreter + differential correspondence",
         design="§6 C12"),
+    "C18": dict(
+        text="Lean theorems about the executable model of parse_units / parse_unitvalue / Units.__str__ / UnitValue.__str__ / "
+             "Units.__eq__ (tables and text-pipeline constants regenerated from units.py on every run): print->parse round trip "
+             "for all 1100 valid systems x all integer exponent vectors (own int printer/reader round trip), quantity round trip "
+             "under the float(str(x))=x contract of the trusted primitives, grammar reading (text of any factor list is read back "
+             "as exactly its symbols and signed exponents), dimension = sum of the symbols' dimensions, invariance under "
+             "a/b <-> a.b-1 (whole result) and under factor order (dimension), base units named by every factor, u-spelling, one "
+             "rejection theorem per class of the statement (unknown symbol, doubled / dangling separator, signed positive, "
+             "fractional / misplaced exponent, embedded blank on the raw text, two units of one base kind, value not separated, "
+             "non-numeric value, blank inside a quantity's units). PARTIAL: the SI-scale product formula and 'consistent => "
+             "accepted' are not proved in Lean; they are checked exactly by the oracle. Tie: translator G1/G2 + UnitsText + "
+             "correspondence (all 1-factor strings, all symbol pairs x both separators, random 3-factor strings, round trips, "
+             "malformed families from the documentation's wrong examples) + grammar-denotation / must-raise oracle on the real code.",
+        note="Lean kernel + {propext, Classical.choice, Quot.sound}; translator; correspondence harness; float()/str(float) of "
+             "CPython trusted (bitwise round trip checked on every sampled double); non-ASCII digits and blanks beyond "
+             "str.isspace are outside the model.",
+        technique="Lean 4 proof over translator-generated tables + differential correspondence",
+        design="§6 C18"),
 }
 
 ALL = ["C%02d" % i for i in range(1, 21)]
